@@ -6,7 +6,7 @@ import z3
 from . import smt
 from .values import (
     Unsupported, Sym, Ref, TupleV, FuncV, LambdaV, BuiltinV, ClassV, ModuleV, SuperV, Raised, ExcSym,
-    PyList, SeqV, PyDict, Obj, ArrState, DataView, MaskView, Idx, StackState, Slice, is_concrete, num_term, isint_of,
+    PyList, SeqV, PyDict, Bag, Obj, ArrState, DataView, MaskView, Idx, StackState, Slice, is_concrete, num_term, isint_of,
     is_num, zand, zor, znot,
 )
 
@@ -116,6 +116,8 @@ class ExprMixin(object):
                 if o.present:
                     raise Unsupported("truth of dict with symbolic keys")
                 yield st, len(o.entries) > 0
+            elif isinstance(o, Bag):
+                yield st, smt.fresh("bag_truth", z3.BoolSort())
             elif isinstance(o, Obj):
                 yield st, True
             elif isinstance(o, ArrState):
@@ -388,6 +390,14 @@ class ExprMixin(object):
         # tuples / lists
         if opn == "Add" and isinstance(a, TupleV) and isinstance(b, TupleV):
             yield st, TupleV(a.items + b.items)
+            return
+        if opn == "Add" and isinstance(a, Ref) and isinstance(b, Ref) and (isinstance(st.get(a), Bag) or isinstance(st.get(b), Bag)) \
+                and isinstance(st.get(a), (Bag, PyList)) and isinstance(st.get(b), (Bag, PyList)):
+            if inplace and st.is_fresh(a):
+                st.set(a, Bag("list"))
+                yield st, a
+            else:
+                yield st, st.alloc(Bag("list"))
             return
         if opn == "Add" and isinstance(a, Ref) and isinstance(b, Ref):
             la, lb = st.get(a), st.get(b)
@@ -791,11 +801,17 @@ class ExprMixin(object):
                     rest = rest[1:]
                     args = args + self.unpack_star(st2, sv)
                 dyn_kwargs = []
+                opaque_kw = None
                 for d in rest:
                     o = st2.get(d) if isinstance(d, Ref) else None
-                    if not isinstance(o, PyDict):
+                    if isinstance(o, PyDict):
+                        dyn_kwargs.append(o)
+                    elif (isinstance(d, Sym) and d.kind == "dyn") or isinstance(o, (Bag, Obj)):
+                        opaque_kw = d  # a mapping whose keys are not statically known: passed on as a whole
+                    else:
                         raise Unsupported("** of non-dict")
-                    dyn_kwargs.append(o)
+                if opaque_kw is not None:
+                    kwargs["**"] = opaque_kw
                 states = [(st2, kwargs)]
                 for o in dyn_kwargs:
                     nxt = []
